@@ -428,7 +428,7 @@ struct Mon {
         try { compareInner(oi, opn); }
         catch (const std::exception& ex) { fail(opn + ":observer-threw", firstLine(ex.what(), 400), oi); }
     }
-#define CK(cond, what, detail) do { if (!ok((cond), opn + ":" + (what), (detail), oi)) return; } while (0)
+#define CK(cond, what, detail) do { ++ncmp; if (!(cond)) { fail(opn + ":" + (what), (detail), oi); return; } } while (0)
     void compareInner(int oi, const std::string& opn) {
         Obj& o = objs[oi]; const State& R = *o.real; MState& m = o.m;
         const int ns = (int)m.subs.size();
@@ -455,7 +455,8 @@ struct Mon {
             CK(!R.hasDiscreteVar(DiscreteVarKey(sx, DiscreteVariableIndex(ndv))), "discrete-variable-not-forgotten", "sub" + std::to_string(si) + " index " + std::to_string(ndv));
             for (int di = 0; di < ndv; ++di) {
                 const DiscreteVariableIndex dx(di); MDV& v = b.dv[di]; const DiscreteVarKey dk(sx, dx);
-                const std::string id = "sub" + std::to_string(si) + " dv" + std::to_string(di);
+                auto idf = [&] { return "sub" + std::to_string(si) + " dv" + std::to_string(di); };
+#define id idf()
                 CK(R.hasDiscreteVar(dk), "discrete-variable-lost", id);
                 CK((int)R.getDiscreteVarAllocationStage(sx, dx) == v.alloc, "dv-allocation-stage", id);
                 CK((int)R.getDiscreteVarInvalidatesStage(sx, dx) == v.inval, "dv-invalidates-stage", id);
@@ -471,19 +472,21 @@ struct Mon {
                 std::vector<Key> want;
                 for (int s2 = 0; s2 < ns; ++s2) for (int c2 = 0; c2 < (int)m.subs[s2].ce.size(); ++c2) if (contains(m.subs[s2].ce[c2].pdv, Key(si, di))) want.push_back(Key(s2, c2));
                 CK(sameDependents(info.getDependents(), want), "dv-dependents-list", id);
+#undef id
             }
             // cache entries
             const int nce = (int)b.ce.size();
             CK(!R.hasCacheEntry(CacheEntryKey(sx, CacheEntryIndex(nce))), "cache-entry-not-forgotten", "sub" + std::to_string(si) + " index " + std::to_string(nce));
             for (int ci = 0; ci < nce; ++ci) {
                 const CacheEntryIndex cx(ci); MCE& e = b.ce[ci]; const CacheEntryKey ck(sx, cx);
-                const std::string id = "sub" + std::to_string(si) + " ce" + std::to_string(ci) + " <" + SN[e.dep] + "," + SN[e.comp] + "," + e.kind() + "> at " + SN[b.stage];
+                auto idf = [&] { return "sub" + std::to_string(si) + " ce" + std::to_string(ci) + " <" + SN[e.dep] + "," + SN[e.comp] + "," + e.kind() + "> at " + SN[b.stage]; };
+#define id idf()
                 CK(R.hasCacheEntry(ck), "cache-entry-lost", id);
                 CK((int)R.getCacheEntryAllocationStage(sx, cx) == e.alloc, "ce-allocation-stage", id);
                 const bool rvalid = R.isCacheValueRealized(sx, cx);
                 const int mv = valid(b, e);
                 if (mv == 2) c.obs("dontcare-validity-after-copy");
-                else if (rvalid && mv == 0) { fail(e.cause + ":stale-entry-valid", id + " reads valid; model: invalid since " + e.cause, oi); return; }
+                else if (rvalid && mv == 0) { fail(std::string(e.cause) + ":stale-entry-valid", id + " reads valid; model: invalid since " + e.cause, oi); return; }
                 else if (!rvalid && mv == 1) { fail(opn + ":valid-entry-reads-invalid", id + " reads invalid; model: valid since " + e.cause, oi); return; }
                 else ++ncmp;
                 if (e.assocDV >= 0) CK(R.isDiscreteVarUpdateValueRealized(sx, DiscreteVariableIndex(e.assocDV)) == rvalid, "update-value-realized-disagrees", id);
@@ -506,6 +509,7 @@ struct Mon {
                 std::vector<Key> want;
                 for (int s2 = 0; s2 < ns; ++s2) for (int c2 = 0; c2 < (int)m.subs[s2].ce.size(); ++c2) if (contains(m.subs[s2].ce[c2].pce, Key(si, ci))) want.push_back(Key(s2, c2));
                 CK(sameDependents(info.getDependents(), want), "ce-dependents-list", id);
+#undef id
             }
         }
         // q/u/z dependents
@@ -548,14 +552,14 @@ struct Mon {
             { const Vector& y = R.getY(); std::vector<double> my = m.q; my.insert(my.end(), m.u.begin(), m.u.end()); my.insert(my.end(), m.z.begin(), m.z.end()); CK(sameVec(y, my), "y-value", ""); }
             CK(sameVec(R.getUWeights(), m.uw), "u-weights", ""); CK(sameVec(R.getZWeights(), m.zw), "z-weights", "");
             for (int si = 0; si < ns; ++si) {
-                const SubsystemIndex sx(si); const MSub& b = m.subs[si]; const std::string id = "sub" + std::to_string(si);
+                const SubsystemIndex sx(si); const MSub& b = m.subs[si]; auto idf = [&] { return "sub" + std::to_string(si); };
                 CK((int)R.getQStart(sx) == m.qStart(si) && R.getNQ(sx) == b.nq() && (int)R.getUStart(sx) == m.uStart(si) && R.getNU(sx) == b.nu()
-                   && (int)R.getZStart(sx) == m.zStart(si) && R.getNZ(sx) == b.nz(), "subsystem-partition", id);
-                CK(sameVec(R.getQ(sx), m.q, m.qStart(si), b.nq()), "q-value(sub)", id);
-                CK(sameVec(R.getU(sx), m.u, m.uStart(si), b.nu()), "u-value(sub)", id);
-                CK(sameVec(R.getZ(sx), m.z, m.zStart(si), b.nz()), "z-value(sub)", id);
-                CK(sameVec(R.getUWeights(sx), m.uw, m.uStart(si), b.nu()), "u-weights(sub)", id);
-                CK(sameVec(R.getZWeights(sx), m.zw, m.zStart(si), b.nz()), "z-weights(sub)", id);
+                   && (int)R.getZStart(sx) == m.zStart(si) && R.getNZ(sx) == b.nz(), "subsystem-partition", idf());
+                CK(sameVec(R.getQ(sx), m.q, m.qStart(si), b.nq()), "q-value(sub)", idf());
+                CK(sameVec(R.getU(sx), m.u, m.uStart(si), b.nu()), "u-value(sub)", idf());
+                CK(sameVec(R.getZ(sx), m.z, m.zStart(si), b.nz()), "z-value(sub)", idf());
+                CK(sameVec(R.getUWeights(sx), m.uw, m.uStart(si), b.nu()), "u-weights(sub)", idf());
+                CK(sameVec(R.getZWeights(sx), m.zw, m.zStart(si), b.nz()), "z-weights(sub)", idf());
             }
         }
         if (m.sys >= SInstance) {
@@ -564,11 +568,11 @@ struct Mon {
                && R.getNYErr() == (int)(m.qew.size() + m.uew.size()), "constraint-dimensions", "");
             CK(sameVec(R.getQErrWeights(), m.qew), "qerr-weights", ""); CK(sameVec(R.getUErrWeights(), m.uew), "uerr-weights", "");
             for (int si = 0; si < ns; ++si) {
-                const SubsystemIndex sx(si); const MSub& b = m.subs[si]; const std::string id = "sub" + std::to_string(si);
+                const SubsystemIndex sx(si); const MSub& b = m.subs[si]; auto idf = [&] { return "sub" + std::to_string(si); };
                 CK((int)R.getQErrStart(sx) == m.qeStart(si) && R.getNQErr(sx) == b.nqe() && (int)R.getUErrStart(sx) == m.ueStart(si) && R.getNUErr(sx) == b.nue()
-                   && (int)R.getUDotErrStart(sx) == m.udeStart(si) && R.getNUDotErr(sx) == b.nude(), "constraint-partition", id);
-                CK(sameVec(R.getQErrWeights(sx), m.qew, m.qeStart(si), b.nqe()), "qerr-weights(sub)", id);
-                CK(sameVec(R.getUErrWeights(sx), m.uew, m.ueStart(si), b.nue()), "uerr-weights(sub)", id);
+                   && (int)R.getUDotErrStart(sx) == m.udeStart(si) && R.getNUDotErr(sx) == b.nude(), "constraint-partition", idf());
+                CK(sameVec(R.getQErrWeights(sx), m.qew, m.qeStart(si), b.nqe()), "qerr-weights(sub)", idf());
+                CK(sameVec(R.getUErrWeights(sx), m.uew, m.ueStart(si), b.nue()), "uerr-weights(sub)", idf());
             }
         }
     }
@@ -852,6 +856,14 @@ struct Mon {
         }
     }
 };
+
+// The histories free and allocate millions of small blocks; ASan's default 256 MB quarantine then
+// costs 5-10x in page faults. 32 MB still holds every block freed during several whole cases
+// (a use-after-free inside State is caught long before its block leaves quarantine).
+// Flags given in ASAN_OPTIONS by the driver take precedence over these defaults.
+#if defined(VH_ASAN) || defined(__SANITIZE_ADDRESS__)
+extern "C" const char* __asan_default_options() { return "quarantine_size_mb=32:malloc_context_size=8"; }
+#endif
 
 int main(int argc, char** argv) {
     Args a = parseArgs(argc, argv);
